@@ -97,7 +97,7 @@ namespace C14Ex
 def σ (i : Node) : Node := if i = 0 then 2 else if i = 2 then 0 else i
 theorem σσ (i : Node) : σ (σ i) = i := by unfold σ; grind
 def succ (u : Node) : List Node := match u with | 0 => [1] | 1 => [2] | 2 => [1] | _ => []
-def P : DParams := { nodes := [0, 1, 2], nbrs := succ, rule := fun _ _ => true, recSteps := none, tmin := 0, tmax := none }
+def P : DParams := { nodes := [0, 1, 2], nbrs := succ, rule := fun _ _ _ => true, recSteps := none, tmin := 0, tmax := none }
 
 example : (Discrete.relabel σ σ P).nodes = [2, 1, 0] ∧ (Discrete.relabel σ σ P).nbrs 2 = [1] ∧
     (Discrete.relabel σ σ P).nbrs 0 = [1] ∧ (Discrete.relabel σ σ P).nbrs 1 = [0] := by decide +kernel
